@@ -20,7 +20,7 @@ CHUNK = 1
 
 
 def cases(tier, seed):
-    n = 48 if tier == "quick" else 480
+    n = 48 if tier == "quick" else 640
     return [{"i": i, "seed": seed, "evals": 400 if tier == "quick" else 900, "xproc": i % 8 == 0} for i in range(n)]
 
 
